@@ -291,18 +291,40 @@ class SimDevice:
         if kind in ("garbage", "raw"):
             conn.send_stream(action[1], delay=self.latency)
             return
+        old_state_frame = None
         if kind == "frames":
             frames = list(action[1])
             opts = action[2] if len(action) > 2 else {}
             self.ac.handle(frame)    # the model still processes the command
         else:
             opts = action[1] if len(action) > 1 else {}
+            if "STATE_OLD" in list(opts.get("pre", [])) + list(opts.get("post", [])):
+                old_state_frame = self.ac.state_frame(0x03)
             if opts.get("lost_in_app"):
                 frames = []
             else:
                 frames = self.ac.handle(frame)
-        pre = list(opts.get("pre", []))
-        post = list(opts.get("post", []))
+
+        def expand(tokens):
+            out = []
+            for tkn in tokens:
+                if tkn == "DUP":
+                    out += frames[:1]
+                elif tkn == "STATE":
+                    out.append(self.ac.state_frame(0x03))
+                elif tkn == "STATE_OLD":
+                    out.append(old_state_frame)
+                elif tkn == "A0":
+                    out.append(rc.frame_build(0x05, bytes([0xA0]) + bytes(range(1, 22)), proto=3))
+                elif tkn == "A1":
+                    out.append(rc.frame_build(0x04, bytes([0xA1]) + bytes(range(30, 52)), proto=3))
+                elif tkn == "B5N":
+                    out.append(rc.frame_build(0x05, bytes([0xB5, 0x01, 0x12, 0x02, 0x01, 0x01]), proto=3))
+                else:
+                    out.append(tkn)
+            return out
+        pre = expand(list(opts.get("pre", [])))
+        post = expand(list(opts.get("post", [])))
         delay = opts.get("delay", self.latency)
         seq = pre + frames + post
         if not seq:
